@@ -1123,3 +1123,9 @@ B('C06', 'natural-number subtraction handed to SymPy', 'prover/sympywrapper.py',
 N('C06', 'same-named variables compared through a membership test', 'prover/z3wrapper.py',
   "        if var_types.setdefault(v.name, v.T) != v.T:", "        if v.name in var_types and var_types[v.name] != v.T:",
   more=[("            print_debug('variable %s occurs at two types' % v.name)\n            return s\n", "            print_debug('variable %s occurs at two types' % v.name)\n            return s\n        var_types[v.name] = v.T\n")])
+B('C18', 'nested ite case does not compare the right-hand condition', VM,
+  "                if l_P == l_then_P and l_P == r_P and l_then_then == r_then and l_else == r_else:\n                    return True", "                if l_P == l_then_P and l_then_then == r_then and l_else == r_else:\n                    return True", 'C18.R24', 'compare_ite')
+B('C18', 'bind without its freshness side condition', VM,
+  "            if lhs.occurs_var(rv):\n                raise VeriTException(\"bind\", \"bound variable of rhs occurs free in lhs\")\n", "", 'C18.R25', 'BindMacro')
+N('C18', 'bind tests freshness through the list of free variables', VM,
+  "            if lhs.occurs_var(rv):\n                raise VeriTException(\"bind\", \"bound variable of rhs occurs free in lhs\")\n", "            if rv in lhs.get_vars():\n                raise VeriTException(\"bind\", \"bound variable of rhs occurs free in lhs\")\n")
